@@ -7,7 +7,23 @@ import AskarModel.Model.IndyMigration
 open Lean Askar Askar.Wql Askar.Store Askar.Copy
 
 namespace Driver.C18
-open Driver.Store (parseTags jentries sortBy)
+open Driver.Store (parseTags sortBy tagLt jtag entryLt)
+
+/-- FNV-1a-64 in machine arithmetic: the same digest as `Driver.jvalue` (which works in `Nat` modulo 2^64), fast
+    enough for the megabyte values of the large-value cases -/
+def fnv64 (b : Bytes) : UInt64 :=
+  b.foldl (fun (h : UInt64) x => (h ^^^ x.toUInt64) * 0x100000001b3) 0xcbf29ce484222325
+
+def jvalueFast (b : Bytes) : Json :=
+  if b.length ≤ 512 then jhex b
+  else .str ("len:" ++ toString b.length ++ ":fnv:" ++ hex16 (fnv64 b).toNat)
+
+def jentry (e : Entry) : Json :=
+  Json.mkObj [("k", jnat e.kind), ("c", .str e.cat), ("n", .str e.name), ("v", jvalueFast e.value),
+    ("t", .arr ((sortBy tagLt e.tags).map jtag).toArray)]
+
+/-- records sorted by (kind, category bytes, name bytes), the canonical form of `Driver.Store.jentries false` -/
+def jentries (_ordered : Bool) (es : List Entry) : Json := .arr ((sortBy entryLt es).map jentry).toArray
 
 def nameLt (a b : String) : Bool := Bytes.lt (utf8 a) (utf8 b)
 
